@@ -58,6 +58,7 @@ type PathResult struct {
 	WitnessNames []string
 	WitnessVals []string
 	Choices []int
+	TimerNondet bool
 }
 
 type Exec struct {
